@@ -41,22 +41,22 @@ pub open spec fn hist_ext(pre: World, post: World) -> bool {
 
 /// nothing at or below `d` differs between the two states
 pub open spec fn same_under(a: Fs, b: Fs, d: PathV) -> bool {
-    &&& forall|p: PathV| under(p, d) ==> (#[trigger] a.files.contains_key(p) <==> b.files.contains_key(p))
+    &&& forall|p: PathV| #![trigger a.files.contains_key(p)] #![trigger b.files.contains_key(p)] under(p, d) ==> (a.files.contains_key(p) <==> b.files.contains_key(p))
     &&& forall|p: PathV| under(p, d) && #[trigger] a.files.contains_key(p) ==> a.files[p] == b.files[p]
-    &&& forall|p: PathV| under(p, d) ==> (#[trigger] a.links.contains_key(p) <==> b.links.contains_key(p))
+    &&& forall|p: PathV| #![trigger a.links.contains_key(p)] #![trigger b.links.contains_key(p)] under(p, d) ==> (a.links.contains_key(p) <==> b.links.contains_key(p))
     &&& forall|p: PathV| under(p, d) && #[trigger] a.links.contains_key(p) ==> a.links[p] == b.links[p]
 }
 /// nothing outside `d` differs between the two states (files, links and directories)
 pub open spec fn same_outside(a: Fs, b: Fs, d: PathV) -> bool {
-    &&& forall|p: PathV| !under(p, d) ==> (#[trigger] a.files.contains_key(p) <==> b.files.contains_key(p))
+    &&& forall|p: PathV| #![trigger a.files.contains_key(p)] #![trigger b.files.contains_key(p)] !under(p, d) ==> (a.files.contains_key(p) <==> b.files.contains_key(p))
     &&& forall|p: PathV| !under(p, d) && #[trigger] a.files.contains_key(p) ==> a.files[p] == b.files[p]
-    &&& forall|p: PathV| !under(p, d) ==> (#[trigger] a.links.contains_key(p) <==> b.links.contains_key(p))
+    &&& forall|p: PathV| #![trigger a.links.contains_key(p)] #![trigger b.links.contains_key(p)] !under(p, d) ==> (a.links.contains_key(p) <==> b.links.contains_key(p))
     &&& forall|p: PathV| !under(p, d) && #[trigger] a.links.contains_key(p) ==> a.links[p] == b.links[p]
-    &&& forall|p: PathV| !under(p, d) ==> (#[trigger] a.dirs.contains(p) <==> b.dirs.contains(p))
+    &&& forall|p: PathV| #![trigger a.dirs.contains(p)] #![trigger b.dirs.contains(p)] !under(p, d) ==> (a.dirs.contains(p) <==> b.dirs.contains(p))
 }
 /// the only path whose file/link node may differ is `q`
 pub open spec fn same_except(a: Fs, b: Fs, q: PathV) -> bool {
-    &&& forall|p: PathV| p != q ==> (#[trigger] a.files.contains_key(p) <==> b.files.contains_key(p))
+    &&& forall|p: PathV| #![trigger a.files.contains_key(p)] #![trigger b.files.contains_key(p)] p != q ==> (a.files.contains_key(p) <==> b.files.contains_key(p))
     &&& forall|p: PathV| p != q && #[trigger] a.files.contains_key(p) ==> a.files[p] == b.files[p]
     &&& a.links == b.links
 }
